@@ -172,7 +172,7 @@ def check_property(pid, units, tier="quick", seed=0, extra=None):
     canaries = [(r, l, o) for (r, l, o) in obs if o.kind == "canary"]
     t1 = time.time()
     sols = smt.discharge([o for _, _, o in real], budget_s=budget, also_cvc5=(tier == "thorough"))
-    can = smt.discharge([o for _, _, o in canaries], budget_s=3)
+    can = smt.discharge([o for _, _, o in canaries], budget_s=3, refute=False)
     t_solve = time.time() - t1
 
     known = load_known()
@@ -206,7 +206,7 @@ def check_property(pid, units, tier="quick", seed=0, extra=None):
     can_by = {}
     for (r, label, ob), s in zip(canaries, can):
         can_by.setdefault((r.unit.name, label), []).append(s["verdict"])
-    vac = [k for k, v in can_by.items() if all(x == "proved" for x in v)]
+    vac = [k for k, v in can_by.items() if all(x == "proved" for x in v)]  # "unknown"/open = not proved = fine
     for k in vac:
         errors.append(f"vacuous contract: every path of {k[0]}[{k[1]}] proves False (contradictory requires)")
     if not real:
